@@ -765,12 +765,13 @@ class DAG(BaseDAG[P, RVDAG]):
                     to_subdag_id(id_): UsageExecNode(to_subdag_id(uxn.id), uxn.key)
                     for id_, uxn in exec_node.kwargs.items()
                 }
-                if not exec_node.setup:
-                    if exec_node.active is not None:
-                        values["active"] = UsageExecNode(
-                            to_subdag_id(exec_node.active.id), exec_node.active.key
-                        )
+                # asdict turned the activation reference into a dict: restore it for every kind of ExecNode
+                if exec_node.active is not None:
+                    values["active"] = UsageExecNode(
+                        to_subdag_id(exec_node.active.id), exec_node.active.key
+                    )
 
+                if not exec_node.setup:
                     if is_active:
                         if exec_node.active is not None:
                             raise RuntimeError(
